@@ -30,3 +30,108 @@ package bfe_http2
 //@   ensures[refused_iff_sum_not_representable] result0 <==> (-2147483648 <= old(f.n) + n && old(f.n) + n <= 2147483647)
 //@   ensures[added] result0 ==> f.n == old(f.n) + n
 //@   ensures[unchanged_when_refused] !result0 ==> f.n == old(f.n)
+
+//@ package_invariant[sentinel_errors] errStreamID != nil && errPadLength != nil
+
+//@ spec be32(p []byte) uint32 := uint32(p[0])*16777216 + uint32(p[1])*65536 + uint32(p[2])*256 + uint32(p[3])
+
+//@ func (Flags).Has
+//@   props C32
+//@   arith bv
+//@   nopanic
+//@   modifies nothing
+//@   ensures result0 <==> (f & v) == v
+
+//@ func readByte
+//@   props C32
+//@   arith bv
+//@   nopanic
+//@   modifies nothing
+//@   ensures[empty_is_error] len(p) == 0 ==> err != nil
+//@   ensures[one_byte] len(p) >= 1 ==> err == nil && b == p[0] && base(remain) == base(p) && off(remain) == off(p) + 1 && len(remain) == len(p) - 1
+
+//@ func readUint32
+//@   props C32
+//@   arith bv
+//@   nopanic
+//@   modifies nothing
+//@   ensures[short_is_error] len(p) < 4 ==> err != nil
+//@   ensures[four_bytes_big_endian] len(p) >= 4 ==> err == nil && v == be32(p) && base(remain) == base(p) && off(remain) == off(p) + 4 && len(remain) == len(p) - 4
+
+//@ func parsePingFrame
+//@   props C32
+//@   arith bv
+//@   nopanic
+//@   modifies nothing
+//@   ensures[length_must_be_8] len(payload) != 8 ==> result1 != nil
+//@   ensures[stream_must_be_0] fh.StreamID != 0 ==> result1 != nil
+//@   ensures[accepted_otherwise] len(payload) == 8 && fh.StreamID == 0 ==> result1 == nil && typeis(result0, "*PingFrame")
+//@   ensures[opaque_data_copied] result1 == nil ==> (forall k int :: 0 <= k && k < 8 ==> unbox(result0, "*PingFrame").Data[k] == payload[k])
+//@   ensures[header_kept] result1 == nil ==> unbox(result0, "*PingFrame").FrameHeader == fh
+
+//@ func parseWindowUpdateFrame
+//@   props C32
+//@   arith bv
+//@   nopanic
+//@   modifies nothing
+//@   ensures[length_must_be_4] len(p) != 4 ==> result1 != nil
+//@   ensures[zero_increment_is_an_error] len(p) == 4 && (be32(p) & 2147483647) == 0 ==> result1 != nil
+//@   ensures[accepted_otherwise] len(p) == 4 && (be32(p) & 2147483647) != 0 ==> result1 == nil && typeis(result0, "*WindowUpdateFrame")
+//@   ensures[increment_is_31_bits_of_payload] result1 == nil ==> unbox(result0, "*WindowUpdateFrame").Increment == (be32(p) & 2147483647) && unbox(result0, "*WindowUpdateFrame").FrameHeader == fh
+
+//@ func parseRSTStreamFrame
+//@   props C32
+//@   arith bv
+//@   nopanic
+//@   modifies nothing
+//@   ensures[length_must_be_4] len(p) != 4 ==> result1 != nil
+//@   ensures[stream_must_not_be_0] fh.StreamID == 0 ==> result1 != nil
+//@   ensures[accepted_otherwise] len(p) == 4 && fh.StreamID != 0 ==> result1 == nil && typeis(result0, "*RSTStreamFrame")
+//@   ensures[code_is_payload] result1 == nil ==> uint32(unbox(result0, "*RSTStreamFrame").ErrCode) == be32(p) && unbox(result0, "*RSTStreamFrame").FrameHeader == fh
+
+//@ func parseDataFrame
+//@   props C32
+//@   arith bv
+//@   nopanic
+//@   modifies nothing
+//@   let padded := (fh.Flags & 8) == 8
+//@   ensures[stream_must_not_be_0] fh.StreamID == 0 ==> result1 != nil
+//@   ensures[padded_needs_pad_length_octet] padded && len(payload) == 0 ==> result1 != nil
+//@   ensures[padding_must_fit] padded && len(payload) >= 1 && int(payload[0]) > len(payload) - 1 ==> result1 != nil
+//@   ensures[unpadded_data_is_payload] result1 == nil && !padded ==> sameslice(unbox(result0, "*DataFrame").data, payload)
+//@   ensures[padded_data_excludes_length_octet_and_padding] result1 == nil && padded ==> base(unbox(result0, "*DataFrame").data) == base(payload) && off(unbox(result0, "*DataFrame").data) == off(payload) + 1 && len(unbox(result0, "*DataFrame").data) == len(payload) - 1 - int(payload[0])
+//@   ensures[accepted_otherwise] fh.StreamID != 0 && (!padded || (len(payload) >= 1 && int(payload[0]) <= len(payload) - 1)) ==> result1 == nil && typeis(result0, "*DataFrame")
+
+//@ func parseGoAwayFrame
+//@   props C32
+//@   arith bv
+//@   nopanic
+//@   modifies nothing
+//@   ensures[stream_must_be_0] fh.StreamID != 0 ==> result1 != nil
+//@   ensures[at_least_8_octets] len(p) < 8 ==> result1 != nil
+//@   ensures[accepted_otherwise] fh.StreamID == 0 && len(p) >= 8 ==> result1 == nil && typeis(result0, "*GoAwayFrame")
+//@   ensures[fields] result1 == nil ==> unbox(result0, "*GoAwayFrame").LastStreamID == (be32(p) & 2147483647) && uint32(unbox(result0, "*GoAwayFrame").ErrCode) == be32(p[4:]) && len(unbox(result0, "*GoAwayFrame").debugData) == len(p) - 8
+
+//@ func parsePriorityFrame
+//@   props C32
+//@   arith bv
+//@   nopanic
+//@   modifies nothing
+//@   ensures[stream_must_not_be_0] fh.StreamID == 0 ==> result1 != nil
+//@   ensures[length_must_be_5] len(payload) != 5 ==> result1 != nil
+//@   ensures[accepted_otherwise] fh.StreamID != 0 && len(payload) == 5 ==> result1 == nil && typeis(result0, "*PriorityFrame")
+//@   ensures[fields] result1 == nil ==> unbox(result0, "*PriorityFrame").PriorityParam.StreamDep == (be32(payload) & 2147483647) && unbox(result0, "*PriorityFrame").PriorityParam.Weight == payload[4] && (unbox(result0, "*PriorityFrame").PriorityParam.Exclusive <==> (be32(payload) & 2147483648) != 0)
+
+//@ func parseContinuationFrame
+//@   props C32
+//@   arith bv
+//@   nopanic
+//@   modifies nothing
+//@   ensures[stream_must_not_be_0] (fh.StreamID == 0) <==> (result1 != nil)
+
+//@ func parseUnknownFrame
+//@   props C32
+//@   arith bv
+//@   nopanic
+//@   modifies nothing
+//@   ensures result1 == nil && typeis(result0, "*UnknownFrame") && sameslice(unbox(result0, "*UnknownFrame").p, p)
